@@ -114,27 +114,28 @@ fn fp_ops<T: MontConfig<N>, const N: usize>(_fl: &str, name: &str, rng: &mut Rng
     if tiny {
         for x in &vals { for y in &vals { fp_pair(out, &pfx, "pair", *x, *y, true); } }
     } else {
-        let head = m.min(if thorough { 16 } else { 7 });
+        let head = m.min(if thorough { 16 } else { 5 });
         for i in 0..head { for j in 0..head { fp_pair(out, &pfx, "pair", vals[i], vals[j], i <= j); } }
-        for _ in 0..(if thorough { 200 } else { 16 }) {
+        for t in 0..(if thorough { 200 } else { 10 }) {
             let (x, y) = (vals[rng.below(m as u64) as usize], vals[rng.below(m as u64) as usize]);
-            fp_pair(out, &pfx, "pair", x, y, true);
+            fp_pair(out, &pfx, "pair", x, y, t % 2 == 0);
         }
         // neighbours in the integer order and in the raw order
-        for _ in 0..(if thorough { 40 } else { 6 }) {
+        for _ in 0..(if thorough { 40 } else { 4 }) {
             let x = vals[rng.below(m as u64) as usize];
             fp_pair(out, &pfx, "succ", x, x + F::<T, N>::one(), false);
             let mut y = x; y.0 .0[0] ^= 1; if y.0 < T::MODULUS { fp_pair(out, &pfx, "rawnbr", x, y, false); }
         }
     }
     // ---- the same value through different operation sequences
-    let ntr = if tiny { if p0 <= 5 { m * m * m } else { 120 } } else if thorough { 60 } else { 8 };
+    let ex3 = tiny && p0 <= (if thorough { 5 } else { 3 });
+    let ntr = if ex3 { m * m * m } else if tiny { if thorough { 150 } else { 20 } } else if thorough { 60 } else { 4 };
     for t in 0..ntr {
-        let (a, b, c) = if tiny && p0 <= 5 { (vals[t % m], vals[(t / m) % m], vals[t / (m * m)]) }
+        let (a, b, c) = if ex3 { (vals[t % m], vals[(t / m) % m], vals[t / (m * m)]) }
                         else { (vals[rng.below(m as u64) as usize], vals[rng.below(m as u64) as usize], vals[rng.below(m as u64) as usize]) };
         let one = F::<T, N>::one();
         let zero = F::<T, N>::zero();
-        let hsh = t % 2 == 0;
+        let hsh = if thorough { t % 2 == 0 } else { t % 4 == 0 };
         fp_pair(out, &pfx, "comm-add", a + b, b + a, hsh);
         fp_pair(out, &pfx, "comm-mul", a * b, b * a, hsh);
         fp_pair(out, &pfx, "assoc-add", (a + b) + c, a + (b + c), hsh);
@@ -173,9 +174,10 @@ fn fp_ops<T: MontConfig<N>, const N: usize>(_fl: &str, name: &str, rng: &mut Rng
         if let Ok((x, y)) = std::panic::catch_unwind(f) { fp_pair(out, &pfx, tag, x, y, true); }
     }
     // ---- triples
-    let n3 = if tiny { if p0 <= 7 { m * m * m } else { 300 } } else if thorough { 120 } else { 12 };
+    let ex3c = tiny && p0 <= (if thorough { 13 } else { 5 });
+    let n3 = if ex3c { m * m * m } else if tiny { 300 } else if thorough { 120 } else { 8 };
     for t in 0..n3 {
-        let (a, b, c) = if tiny && p0 <= 7 { (vals[t % m], vals[(t / m) % m], vals[t / (m * m)]) }
+        let (a, b, c) = if ex3c { (vals[t % m], vals[(t / m) % m], vals[t / (m * m)]) }
             else { let a = vals[rng.below(m as u64) as usize]; let b = vals[rng.below(m as u64) as usize];
                    let c = match t % 4 { 0 => a, 1 => b, 2 => a + b, _ => vals[rng.below(m as u64) as usize] }; (a, b, c) };
         out.line(&format!("C19 fpcmp3 {} {} {} {}", pfx, h(&a), h(&b), h(&c)), &guarded(|| cmp3(&a, &b, &c)));
@@ -683,7 +685,8 @@ fn shs<T: MontConfig<N>, const N: usize>(v: &[(usize, F<T, N>)]) -> String {
     if v.is_empty() { return "_".into(); }
     v.iter().map(|(d, c)| format!("{:x}:{}", d, h(c))).collect::<Vec<_>>().join(",")
 }
-struct PolyCx<'a> { out: &'a mut Out, pfx: String, skipped: u64 }
+/// `desc` = the operands of the current operation sequences (printed in the tag of the `polyeq` line)
+struct PolyCx<'a> { out: &'a mut Out, pfx: String, skipped: u64, desc: String }
 type DP<T, const N: usize> = DensePolynomial<F<T, N>>;
 type SP<T, const N: usize> = SparsePolynomial<F<T, N>>;
 
@@ -692,7 +695,7 @@ fn d_pair<T: MontConfig<N>, const N: usize>(cx: &mut PolyCx, tag: &str, f: impl 
         Err(_) => cx.skipped += 1,      // the operation sequence itself panicked (C08's business)
         Ok((a, b)) => {
             let args = format!("{} d {} {} {}", cx.pfx, tag, shd(&a.coeffs), shd(&b.coeffs));
-            cx.out.line(&format!("C19 polyeq {}", args), &guarded(|| b01(a == b).to_string()));
+            cx.out.line(&format!("C19 polyeq {} d {}@{} {} {}", cx.pfx, tag, cx.desc, shd(&a.coeffs), shd(&b.coeffs)), &guarded(|| b01(a == b).to_string()));
             cx.out.line(&format!("C19 polyhash {}", args), &streams(&a, &b));
             cx.out.line(&format!("C19 polyzero {} d {} {}", cx.pfx, tag, shd(&a.coeffs)), &guarded(|| format!("{} {}", b01(a.is_zero()), b01(a == DP::<T, N>::zero()))));
         }
@@ -703,7 +706,7 @@ fn s_pair<T: MontConfig<N>, const N: usize>(cx: &mut PolyCx, tag: &str, f: impl 
         Err(_) => cx.skipped += 1,
         Ok((a, b)) => {
             let args = format!("{} s {} {} {}", cx.pfx, tag, shs(&a.to_vec()), shs(&b.to_vec()));
-            cx.out.line(&format!("C19 polyeq {}", args), &guarded(|| b01(a == b).to_string()));
+            cx.out.line(&format!("C19 polyeq {} s {}@{} {} {}", cx.pfx, tag, cx.desc, shs(&a.to_vec()), shs(&b.to_vec())), &guarded(|| b01(a == b).to_string()));
             cx.out.line(&format!("C19 polyhash {}", args), &streams(&a, &b));
             cx.out.line(&format!("C19 polyzero {} s {} {}", cx.pfx, tag, shs(&a.to_vec())), &guarded(|| format!("{} {}", b01(a.is_zero()), b01(a == SP::<T, N>::zero()))));
         }
@@ -711,6 +714,7 @@ fn s_pair<T: MontConfig<N>, const N: usize>(cx: &mut PolyCx, tag: &str, f: impl 
 }
 fn dense_seqs<T: MontConfig<N>, const N: usize>(cx: &mut PolyCx, p: &DP<T, N>, q: &DP<T, N>, f: F<T, N>, fft: bool) {
     let zero = F::<T, N>::zero();
+    cx.desc = format!("p={}@q={}@f={}", shd(&p.coeffs), shd(&q.coeffs), h(&f));
     d_pair::<T, N>(cx, "pair", || (p.clone(), q.clone()));
     d_pair::<T, N>(cx, "addsub", || (&(p + q) - q, p.clone()));
     d_pair::<T, N>(cx, "subadd", || (&(p - q) + q, p.clone()));
@@ -738,6 +742,7 @@ fn dense_seqs<T: MontConfig<N>, const N: usize>(cx: &mut PolyCx, p: &DP<T, N>, q
 }
 fn sparse_seqs<T: MontConfig<N>, const N: usize>(cx: &mut PolyCx, s: &SP<T, N>, t: &SP<T, N>, f: F<T, N>) {
     let zero = F::<T, N>::zero();
+    cx.desc = format!("s={}@t={}@f={}", shs(&s.to_vec()), shs(&t.to_vec()), h(&f));
     s_pair::<T, N>(cx, "pair", || (s.clone(), t.clone()));
     s_pair::<T, N>(cx, "comm-add", || (s + t, t + s));
     s_pair::<T, N>(cx, "comm-mul", || (s.mul(t), t.mul(s)));
@@ -754,8 +759,8 @@ fn sparse_seqs<T: MontConfig<N>, const N: usize>(cx: &mut PolyCx, s: &SP<T, N>, 
     s_pair::<T, N>(cx, "shuffled", || { let mut v = s.to_vec(); v.reverse(); (SP::<T, N>::from_coefficients_vec(v), s.clone()) });
     s_pair::<T, N>(cx, "mul-zero", || (s.mul(&SP::<T, N>::zero()), SP::<T, N>::zero()));
 }
-fn poly_suite<T: MontConfig<N>, const N: usize>(out: &mut Out, rng: &mut Rng, thorough: bool, exhaustive_len: usize, nrand: usize, fft: bool) {
-    let mut cx = PolyCx { out, pfx: format!("{:x} {}", N, hex_limbs(&T::MODULUS.0)), skipped: 0 };
+fn poly_suite<T: MontConfig<N>, const N: usize>(out: &mut Out, rng: &mut Rng, exhaustive_len: usize, degs: &[usize], all_nz: bool, nrand: usize, fft: bool) {
+    let mut cx = PolyCx { out, pfx: format!("{:x} {}", N, hex_limbs(&T::MODULUS.0)), skipped: 0, desc: String::new() };
     let p0 = T::MODULUS.0[0];
     let re = |rng: &mut Rng| -> F<T, N> { if N == 1 && p0 < 1000 { F::<T, N>::from(rng.below(p0)) } else if rng.below(4) == 0 { F::<T, N>::from(rng.below(3)) } else { F::<T, N>::from_le_bytes_mod_order(&(0..8 * N + 8).map(|_| rng.next() as u8).collect::<Vec<_>>()) } };
     let rnz = |rng: &mut Rng| -> F<T, N> { loop { let x = re(rng); if !x.is_zero() { return x; } } };
@@ -771,10 +776,9 @@ fn poly_suite<T: MontConfig<N>, const N: usize>(out: &mut Out, rng: &mut Rng, th
             cur = nxt;
         }
         for p in &polys { for q in &polys { let f = re(rng); dense_seqs::<T, N>(&mut cx, p, q, f, fft); } }
-        // sparse: up to two terms over the degrees {0, 1, 2, 5}
-        let degs = [0usize, 1, 2, 5];
+        // sparse: up to two terms over the degrees `degs`
         let nz: Vec<F<T, N>> = els.iter().filter(|e| !e.is_zero()).cloned().collect();
-        let nzs: Vec<F<T, N>> = if thorough { nz.clone() } else { vec![nz[0], nz[nz.len() - 1]] };
+        let nzs: Vec<F<T, N>> = if all_nz { nz.clone() } else { vec![nz[0], nz[nz.len() - 1]] };
         let mut sps: Vec<SP<T, N>> = vec![SP::<T, N>::zero()];
         for (i, d) in degs.iter().enumerate() { for c in &nzs {
             sps.push(SP::<T, N>::from_coefficients_vec(vec![(*d, *c)]));
@@ -851,10 +855,13 @@ fn main() {
         }
     }
     if sel("poly") {
-        use arkharness::zoo::{DT5, DT13};
-        poly_suite::<DT5, 1>(&mut out, &mut rng, th, if th { 3 } else { 2 }, if th { 400 } else { 40 }, false);
-        poly_suite::<DT13, 1>(&mut out, &mut rng, th, 0, if th { 1500 } else { 100 }, false);
-        poly_suite::<ark_test_curves::bls12_381::FrConfig, 4>(&mut out, &mut rng, th, 0, if th { 600 } else { 60 }, true);
+        use arkharness::zoo::{DT3, DT5, DT13};
+        // exhaustive: every pair of canonical dense polynomials with ≤ 2 (thorough: ≤ 3) coefficients over F_3,
+        // thorough also ≤ 2 coefficients over F_5; sparse polynomials with ≤ 2 terms over a few degrees
+        poly_suite::<DT3, 1>(&mut out, &mut rng, if th { 3 } else { 2 }, if th { &[0, 1, 2, 5] } else { &[0, 1, 3] }, true, if th { 200 } else { 10 }, false);
+        if th { poly_suite::<DT5, 1>(&mut out, &mut rng, 2, &[0, 1, 2, 5], false, 400, false); }
+        poly_suite::<DT13, 1>(&mut out, &mut rng, 0, &[], false, if th { 1500 } else { 50 }, false);
+        poly_suite::<ark_test_curves::bls12_381::FrConfig, 4>(&mut out, &mut rng, 0, &[], false, if th { 600 } else { 30 }, true);
     }
     out.flush();
 }
